@@ -21,23 +21,48 @@ PROPS["C18"] = dict(
          "afterwards (iterator.go imparity; the undelivered element is not part of the input). Sources that revive after "
          "reporting exhaustion are not generated. non-trivial = the selector decided a tie between equal heads, or exactly one "
          "input is empty, or a successful Reset happened midway / on a loaded look-ahead / after the end, or HasNext was "
-         "called twice in a row, or a lying final HasNext was consumed, or Init was called again while a look-ahead was pending; distinct = FNV hash of the whole case",
+         "called twice in a row, or a lying final HasNext was consumed, or Init was called again while a look-ahead was pending; distinct = FNV hash of the whole case. "
+         "SESSIONS (units sessions_*): 'any two input iterators' includes a Mixer as an input (mixer_test.go merges a mixer with a slice) and iterators "
+         "created after other iterators were used and closed, so a second case type is a HISTORY of 1..10 rounds in one process: each round builds a "
+         "merge tree over 2..8 fresh leaves (any binary tree shape, every mixer with the round's selector, leaf kinds as above), runs a "
+         "HasNext/Next/Reset program on the root, may stay open while the next 1..5 rounds are opened and used (several trees alive at once), runs a "
+         "second program, is drained (or, 20%, abandoned where it stands) and closed by one of four disciplines: nothing closed / root mixer only / "
+         "every created iterator once, newest first (defer style) / every created iterator once, oldest first. The harness calls Close at most once "
+         "per object it created and never touches an object after closing it itself (Iterator doc: Close 'must be always called for any iterator', "
+         "'must not be used after the call'); that Mixer.Close forwards Close to its inputs, so that an input closed by its creator is closed a second "
+         "time through the mixer, is the library's own undocumented behaviour and part of the history. Oracle: the root of every round is compared "
+         "call by call with the reference merge of the reference outputs of its two inputs (recursively), elements tagged value|round|leaf|index; "
+         "each mixer's selector checks that argument 1 is an element of a leaf below input 1 and argument 2 of a leaf below input 2 of the same "
+         "round; Reset of a tree with a non-resettable leaf must return an error (the tree is then only closed). Close return values are not "
+         "judged; a Mixer value or iterator is never reused after Close; Mixer values are never copied (a by-value copy of a used Mixer is not a "
+         "call of the API and nothing documents it). A failing session is re-run after two garbage collections (drops what earlier sessions of the "
+         "process left in package-level caches) and only a failure that is still there is reported, so that the replay of the session alone "
+         "reproduces it; in the exhaustive unit the previous session + this one is tried as a longer history otherwise. sessions_exhaustive: "
+         "every two-round history of (ab or (ab)c over fixed slices; drained / abandoned untouched / abandoned after 'hn'; 4 close disciplines; closed "
+         "before or after the later round) x (every tree shape over 2..4 slice leaves x all assignments of the sequences over {1,2} of length 0..1 "
+         "(thorough 0..2 for 2 leaves) x selectors (quick, 4 leaves: <= and > only) x programs over {h,n,r} to depth 3 (thorough 4 for 2..3 leaves)). session non-trivial = a round opened after an earlier "
+         "one was closed, or two trees alive at once, or a mixer over two mixers, or three levels of mixers, or a tie / refused Reset in a nested tree",
     assumptions=["reference merge written from the C18 statement: head of input 1 is emitted iff input 2 is exhausted or "
                  "(input 1 is not exhausted and selector(head1, head2)); when Next returns ok=false its value is not compared",
                  "Reset with two resettable sources is required to succeed (the sources' own Reset returns nil)",
                  "'any selector' includes selectors that are only defined on real elements: consulting the selector with anything "
                  "but the two current heads is reported even when the emitted sequence is unaffected",
-                 "Init on a used Mixer value must leave nothing of the previous inputs behind (Init 'initializes the mixer')"],
+                 "Init on a used Mixer value must leave nothing of the previous inputs behind (Init 'initializes the mixer')",
+                 "a merge over fresh iterators owes nothing to iterators that were used and closed earlier in the process, whatever documented "
+                 "Close discipline their creator followed (each created iterator closed at most once by the creator, possibly once more through "
+                 "Mixer.Close forwarding); the nested-tree reference applies the C18 statement to every mixer of the tree"],
     units=[
         dict(name="exhaustive", run="^TestC18Exhaustive$", shards=(16, 16), timeout=(200, 1200)),
         dict(name="rapid", run="^TestC18Rapid$", checks=(10000, 200000), shards=(2, 16), timeout=(200, 1200)),
+        dict(name="sessions_exhaustive", run="^TestC18ExhaustiveSessions$", shards=(8, 16), timeout=(200, 1200)),
+        dict(name="sessions_rapid", run="^TestC18RapidSessions$", checks=(4000, 20000), shards=(2, 16), timeout=(200, 1200), shrinktime="10s"),
     ],
 )
 
 LEVEL_TEXT["C18"] = (
     "Generated-input search with an exact oracle: every pair of short sequences over a 3-value alphabet, every selector, every "
     "combination of source kinds and every HasNext/Next/Reset/re-Init program up to a depth bound, plus random long inputs and "
-    "programs, are compared call by call with a two-pointer reference merge in which each element is tagged with its origin, and "
+    "programs, plus histories of several merge trees (mixers of mixers, opened, used and closed over time under every documented Close discipline), are compared call by call with a two-pointer reference merge in which each element is tagged with its origin, and "
     "the selector verifies that it is only consulted about the two current heads. No "
     "counterexample among the cases counted in the evidence; not a proof for longer inputs, deeper programs or other selectors."
 )
